@@ -5,6 +5,7 @@ import (
 	"encoding/hex"
 	"encoding/json"
 	"fmt"
+	"math"
 
 	"github.com/ethereum/go-ethereum/common"
 	"github.com/ethereum/go-ethereum/crypto"
@@ -33,6 +34,11 @@ func (cs ClientState) GetLatestHeight() exported.Height {
 }
 
 func (cs ClientState) Validate() error {
+	// expiry is computed as timestamp + trusting period in uint64: a period near 2^64 wraps around
+	// and the client would be expired from the block that creates it
+	if cs.TrustingPeriod > math.MaxInt64 {
+		return sdkerrors.Wrapf(sdkerrors.ErrInvalidRequest, "trusting period %d is too large", cs.TrustingPeriod)
+	}
 	return cs.Header.ValidateBasic()
 }
 
